@@ -28,7 +28,7 @@ mk MC_Signed_q_dir3null.cfg 3 TRUE 0 3 ValsA TRUE FALSE NoFrame
 mk MC_Signed_q_dir4.cfg 4 TRUE 1 4 ValsC FALSE FALSE Frame8
 mk MC_Signed_t_und4null.cfg 4 FALSE 1 2 ValsC TRUE FALSE NoFrame
 mk MC_Signed_t_und4.cfg 4 FALSE 3 2 ValsB FALSE FALSE NoFrame
-mk MC_Signed_t_dir4.cfg 4 TRUE 2 4 ValsA FALSE FALSE Frame8
+mk MC_Signed_t_dir4.cfg 4 TRUE 2 4 ValsC FALSE FALSE Frame8
 mk Gen_Signed_und4.cfg 4 FALSE 3 2 ValsA FALSE TRUE NoFrame
 mk Gen_Signed_und5.cfg 5 FALSE 3 2 ValsC FALSE TRUE NoFrame
 mk Gen_Signed_dir4.cfg 4 TRUE 3 4 ValsC FALSE TRUE Frame8
